@@ -266,7 +266,7 @@ func c20Run(c *Ctx) {
 	}
 	// random longer sessions
 	r := c.Rand("sessions")
-	n := c.N(1500, 30000)
+	n := c.N(1500, 100000)
 	for k := 0; k < n; k++ {
 		l := 3 + r.Intn(38)
 		ls := make([]string, l)
